@@ -450,6 +450,33 @@ pub fn run(ctx: &mut Ctx) {
     for s in small.iter() {
         fault_space(ctx, s, &mut p, &donor, true);
     }
+    // --- ZA || M of 2^29 bytes: the SM3 bit length needs more than 32 bits. Whatever the library accepts for such a
+    // message must be a signature for the reference verifier too (one shard only, 1.5 GB transient).
+    if ctx.shard == ctx.nshards - 1 {
+        let mut pb = ctx.prng("bitlen_2^32");
+        let len = (1usize << 29) - 32;
+        let d = rand_scalar(&mut pb, &(&c.n - 1u32));
+        let k = rand_scalar(&mut pb, &c.n);
+        let pk = r2::mul(&d, &r2::g()).unwrap();
+        let mut msg = vec![0u8; len];
+        let head = pb.bytes(4096);
+        msg[..4096].copy_from_slice(&head);
+        if let (Some(lpk), Some(sk)) = (lib_pk(&pk), lib_sk(&d)) {
+            let s0 = Sample { d: Some(d.clone()), pk: pk.clone(), lpk: lpk.clone(), id: None, id_str: DEFAULT_ID.to_string(), msg: vec![], sig: vec![], origin: "bitlen-2^32" };
+            // (a) what the library itself signs
+            ctx.eval();
+            if let Outcome::Ret(Ok(sig)) = guard(|| sk.sign(None, &msg)) {
+                probe(ctx, &s0, &lpk, &pk, None, DEFAULT_ID, &msg, &sig, "bitlen_2^32:library_made", false);
+            }
+            // (b) a reference-made signature for the same message with its last byte changed
+            if let Some((r, s)) = r2::sign(&d, DEFAULT_ID.as_bytes(), &msg, &k) {
+                let mut sig = r.to_vec();
+                sig.extend_from_slice(&s);
+                msg[len - 1] ^= 1;
+                probe(ctx, &s0, &lpk, &pk, None, DEFAULT_ID, &msg, &sig, "bitlen_2^32:other_message", true);
+            }
+        }
+    }
     ctx.exhaustive("all 512 single-bit flips of each sample signature", true);
     ctx.exhaustive("all encoding lengths 0..=130 except 64 for each sample signature", true);
     ctx.note("undecidable clause: deleting the t = (r+s) mod n = 0 test is observationally equivalent on every constructible input (acceptance would need e = r - x([s]G) for a hash e); s = n - r is exercised but cannot distinguish");
